@@ -84,16 +84,17 @@ func Check(c *pbt.Case, r *pbt.R) {
 	case "legacy-barrier":
 		// The error arrives from a process running the previous version
 		// of the library, whose barriers have another type name and a
-		// plain (not redactable) message.
-		enc := wire.Unmarshal(wire.Encode(e))
-		wire.VisitDetails(&enc, func(d *errorspb.EncodedErrorDetails, _ bool) {
-			const cur, old = "barriers/*barriers.barrierErr", "barriers/*barriers.barrierError"
-			if strings.HasSuffix(d.ErrorTypeMark.FamilyName, cur) {
-				d.ErrorTypeMark.FamilyName = strings.TrimSuffix(d.ErrorTypeMark.FamilyName, cur) + old
-				d.OriginalTypeName = d.ErrorTypeMark.FamilyName
+		// plain (not redactable) message: the raw text.
+		var texts []string
+		if vis, err := gen.Visible(c.Spec, e); err == nil {
+			for _, v := range vis {
+				if v.Layer().Typ == "*barriers.barrierErr" {
+					texts = append(texts, v.Text())
+				}
 			}
-		})
-		legacyMessages(&enc)
+		}
+		enc := wire.Unmarshal(wire.Encode(e))
+		legacyBarriers(&enc, &texts)
 		e = errors.DecodeError(wire.Ctx, enc)
 	case "opaque":
 		enc := wire.Unmarshal(wire.Encode(e))
@@ -161,19 +162,24 @@ func Check(c *pbt.Case, r *pbt.R) {
 	}
 }
 
-// legacyMessages turns the redactable message of every (legacy)
-// barrier leaf into the plain text the previous version sent.
-func legacyMessages(enc *errorspb.EncodedError) {
+// legacyBarriers rewrites the visible barrier leaves (pre-order, the
+// order of gen.Visible) into what the previous version of the
+// library sent: old type name, plain message.
+func legacyBarriers(enc *errorspb.EncodedError, texts *[]string) {
 	if w := enc.GetWrapper(); w != nil {
-		legacyMessages(&w.Cause)
+		legacyBarriers(&w.Cause, texts)
 		return
 	}
 	if l := enc.GetLeaf(); l != nil {
-		if strings.HasSuffix(l.Details.ErrorTypeMark.FamilyName, "barriers/*barriers.barrierError") {
-			l.Message = redact.RedactableString(l.Message).StripMarkers()
+		const cur, old = "barriers/*barriers.barrierErr", "barriers/*barriers.barrierError"
+		if strings.HasSuffix(l.Details.ErrorTypeMark.FamilyName, cur) && len(*texts) > 0 {
+			l.Details.ErrorTypeMark.FamilyName = strings.TrimSuffix(l.Details.ErrorTypeMark.FamilyName, cur) + old
+			l.Details.OriginalTypeName = l.Details.ErrorTypeMark.FamilyName
+			l.Message = (*texts)[0]
+			*texts = (*texts)[1:]
 		}
 		for _, c := range l.MultierrorCauses {
-			legacyMessages(c)
+			legacyBarriers(c, texts)
 		}
 	}
 }
